@@ -9,7 +9,7 @@ from __future__ import annotations
 import json
 
 from .. import gen
-from ..core import CaseTimeout, case_deadline, rng_for, short_tb
+from ..core import CaseTimeout, case_deadline, rng_for, short_tb, note_exc
 
 PROP = "C14"
 LEVEL = "exploration"
@@ -33,7 +33,14 @@ class Obj:
         return f"Obj<{self.name},{self.guid}>"
 
     def key(self):
-        return ("Obj", self.name, self.guid, self.extra)
+        return (type(self).__name__, self.name, self.guid, self.extra)
+
+
+class FalsyObj(Obj):
+    """A legal data object that is falsy (like an empty container)."""
+
+    def __bool__(self):
+        return False
 
 
 class HObj(Obj):
@@ -58,12 +65,14 @@ def ser(node, data):
         data["guid"] = d.guid
         if isinstance(d, HObj):
             data["hobj"] = True
+        if isinstance(d, FalsyObj):
+            data["falsy"] = True
     return data
 
 
 def deser(parent, item):
     if "guid" in item:
-        cls = HObj if item.get("hobj") else Obj
+        cls = HObj if item.get("hobj") else (FalsyObj if item.get("falsy") else Obj)
         return cls(item["name"], item["guid"], item["extra"])
     return item["data"]
 
@@ -82,6 +91,8 @@ def ser_newdict(node, data):
         out.update(name=d.name, extra=d.extra, guid=d.guid)
         if isinstance(d, HObj):
             out["hobj"] = True
+        if isinstance(d, FalsyObj):
+            out["falsy"] = True
     return out
 
 
@@ -94,6 +105,8 @@ def ser_ownkey(node, data):
             data["hobj"] = True
         else:
             data.pop("data_id", None)
+        if isinstance(d, FalsyObj):
+            data["falsy"] = True
     return data
 
 
@@ -102,7 +115,7 @@ def deser_ownkey(parent, item):
         if item.get("hobj"):
             return HObj(item["name"], item["guid"], item["extra"])
         item["data_id"] = item["guid"]
-        return Obj(item["name"], item["guid"], item["extra"])
+        return (FalsyObj if item.get("falsy") else Obj)(item["name"], item["guid"], item["extra"])
     return item["data"]
 
 
@@ -116,7 +129,8 @@ def build(case):
     par = gen.parents(f)
     if fl == "obj":
         t = Tree("t", calc_data_id=calc_id)
-        pool = [Obj(f"nm{i}", rng.choice([f"g{i}", i + 1000]), rng.choice([None, 1, "x"])) for i in range(max(1, n // 2 + 1))]
+        pool = [(FalsyObj if rng.random() < 0.25 else Obj)(f"nm{i}", rng.choice([f"g{i}", i + 1000]), rng.choice([None, 1, "x"]))
+                for i in range(max(1, n // 2 + 1))]
         labs = gen.clone_labeling(rng, f, list(range(len(pool)))) or None
         if labs is None:
             pool = [Obj(f"nm{i}", f"g{i}") for i in range(n)]
@@ -264,7 +278,17 @@ def run_case(case, res):
                 style = case.get("style", 0) if mapper_used else 0
                 ser_f, deser_f = [(ser, deser), (ser_newdict, deser), (ser_ownkey, deser_ownkey), (ser_none, deser)][style]
                 res.count(f"mapper_style:{style}" if mapper_used else "no_mapper")
-                dl = attempt(lambda: t.to_dict_list(mapper=ser_f) if mapper_used else t.to_dict_list())
+                seen_nodes = []
+
+                def ser_rec(node, data, _f=ser_f):
+                    seen_nodes.append(node)
+                    return _f(node, data)
+
+                dl = attempt(lambda: t.to_dict_list(mapper=ser_rec) if mapper_used else t.to_dict_list())
+                if mapper_used and not isinstance(dl, tuple):
+                    if [id(x) for x in seen_nodes] != [id(x) for x in nodes]:
+                        bad.append(f"to_dict_list called the mapper for {len(seen_nodes)} nodes {[str(getattr(x, 'data', x)) for x in seen_nodes][:6]}, "
+                                   f"the tree has {len(nodes)} nodes (in pre-order)")
                 res.count("to_dict_list")
                 if isinstance(dl, tuple):
                     bad.append(f"to_dict_list raised {dl!r}")
@@ -311,7 +335,7 @@ def run_case(case, res):
         res.inconc("case watchdog fired")
         return
     except Exception:
-        bad.append("harness/exception: " + short_tb())
+        note_exc(res, bad, "exception escaped from the library: ")
     if bad:
         res.violation(case, "; ".join(bad[:2]), n_bad=len(bad))
 
